@@ -6,6 +6,7 @@ import (
 	"fmt"
 	"os"
 	"path/filepath"
+	"runtime/pprof"
 	"sort"
 	"strings"
 	"sync"
@@ -122,7 +123,13 @@ func main() {
 	second := flag.Bool("second", false, "ask a second solver to agree")
 	dump := flag.String("dump", "", "dump SSA of pkg:func and exit")
 	jobs := flag.Int("j", 16, "parallel solver jobs")
+	cpuprof := flag.String("cpuprofile", "", "write cpu profile")
 	flag.Parse()
+	if *cpuprof != "" {
+		f, _ := os.Create(*cpuprof)
+		pprof.StartCPUProfile(f)
+		defer pprof.StopCPUProfile()
+	}
 
 	res := &Result{}
 	writeRes := func() {
